@@ -24,8 +24,45 @@ fn main() {
             println!("{} jobs, {} program x config items; {}", spec.jobs.len(), n, spec.rule_text);
             if let Some(k) = args.get(4).and_then(|s| s.parse::<usize>().ok()) {
                 for j in spec.jobs.iter().step_by((spec.jobs.len() / k).max(1)) {
-                    println!("  {}", j.programs[j.programs.len() / 2].short());
+                    println!("  {} {}", j.programs[j.programs.len() / 2].name, j.programs[j.programs.len() / 2].short());
                 }
+            }
+            0
+        }
+        Some("run1") => {
+            // run1 <prop> <tier> <program-name> [bound|none]: explore one program in this process
+            let prop = args.get(2).expect("property id");
+            let tier = args.get(3).expect("tier");
+            let name = args.get(4).expect("program name");
+            let spec = vx_core::plans::plan(prop, tier).expect("plan");
+            let cancelable = args.get(6).map_or(false, |s| s == "c");
+            let mut found = None;
+            for j in &spec.jobs {
+                if j.cancelable != cancelable {
+                    continue;
+                }
+                for p in &j.programs {
+                    if &p.name == name {
+                        found = Some((j.clone(), p.clone()));
+                    }
+                }
+            }
+            let (mut job, p) = found.expect("no such program in the plan");
+            job.programs = vec![p.clone()];
+            if let Some(b) = args.get(5) {
+                job.bound = b.parse().ok();
+            }
+            println!("{}", p.short());
+            let res = vx_core::check::run_job(&job);
+            println!("executions {} transitions {} outcomes {} capped {} aborted {:?}", res.executions, res.transitions, res.outcomes.len(), res.capped, res.aborted);
+            for g in &res.findings {
+                println!("  {} / {} x{} reproduced={} choices={:?}: {}", g.finding.rule, g.finding.what, g.count, g.reproduced, g.choices, g.finding.detail);
+            }
+            for m in &res.machinery {
+                println!("  MACHINERY {m}");
+            }
+            if let Some(s) = &res.sample {
+                println!("  sample: {s}");
             }
             0
         }
